@@ -312,6 +312,14 @@ def run_child(mode: str, arg: dict, timeout: float = 120.0) -> dict:
 # parent side
 # ------------------------------------------------------------------------------------------------
 
+def short(outcome: str) -> str:
+    """Histogram key: exception class and the name of the file, without the directories."""
+    if "@" in outcome:
+        a, b = outcome.split("@", 1)
+        return a + "@" + os.path.basename(b).split(",")[0][:24] if not b.endswith(".state") else a + "@<state dir>"
+    return outcome
+
+
 def trunc_lengths(size: int, rng) -> list[int]:
     if size <= 512:
         return list(range(size))
@@ -346,7 +354,8 @@ class Loader:
         try:
             self.store.load_state(path)
         except Exception as e:
-            return "err " + pc.canon_exc(e)
+            anchor = Path(path).parent.parent
+            return "err " + pc.canon_load_exc(e, anchor).replace("@?", "@" + os.path.relpath(path, anchor))
         return "ok"
 
     def close(self) -> None:
@@ -364,9 +373,12 @@ def model_ops(reply: str) -> list[list[str]]:
 
 
 def fork_case(case: dict, driver, rng, res: SuiteResult | None = None):
-    """One system through the fork suite. Returns (violations, disagreement, info)."""
+    """One system through the fork suite. Returns (violations, disagreement, info). The objects are
+    registered in the order `launch()` registers them, read from launcher.py (a fact about the
+    code under test, not part of the case)."""
     spec = case["spec"]
-    order = case.get("order")
+    case = {"spec": spec}
+    order = registration_from_source()
     violations: list[Violation] = []
     d = None
     info: dict = {}
@@ -419,7 +431,7 @@ def fork_case(case: dict, driver, rng, res: SuiteResult | None = None):
         try:
             # the complete directory must load (sanity; C05 is about what it loads to)
             full = loader.load(Path(base) / "rec" / "states" / NEW)
-            hit("complete:" + full)
+            hit("complete:" + short(full))
             if full != "ok":
                 d = d or Disagreement("crash-fork", f"the complete state does not load: {full}", case)
             mlines: list[str] = []
@@ -436,7 +448,7 @@ def fork_case(case: dict, driver, rng, res: SuiteResult | None = None):
                 torn = Path(base) / f"k{k}" / "states" / NEW
                 # (1) the directory as the crash left it
                 got = loader.load(torn)
-                hit("torn:" + got)
+                hit("torn:" + short(got))
                 if got == "ok":
                     violations.append(Violation(
                         "crash:torn-accepted", f"killed before operation {k} {ops[k]}: load_state of the "
@@ -453,7 +465,7 @@ def fork_case(case: dict, driver, rng, res: SuiteResult | None = None):
                     for ln in trunc_lengths(len(content), rng):
                         f.write_bytes(content[:ln])
                         got = loader.load(torn)
-                        hit("truncated:" + got)
+                        hit("truncated:" + short(got))
                         if got == "ok":
                             violations.append(Violation(
                                 "crash:torn-accepted", f"{ops[k-1][1]} truncated to {ln} of "
@@ -497,7 +509,7 @@ def fixed_specs() -> list[dict]:
             "users": [["d", "seq", 3, "1", [["c", 101, "1", "0", 0], ["c", 102, "2", "0", 0], ["u"]]],
                       ["e", "rrb", 2, "1/2", [["c", 101, "1", "0", 0]]],
                       ["f", "dseq", 2, "1", []]],
-            "trainers": [["t1", "12.5" if False else "25/2", "d"], ["t2", "-inf", None], ["t3", "inf", "e"],
+            "trainers": [["t1", "25/2", "d"], ["t2", "-inf", None], ["t3", "inf", "e"],
                          ["t4", pc.ext_of_float(1e-05), None]]}
     only_trainers = {"tree": ["I", ["A", 1, []], ["E", 2]], "states": {"1": 1, "2": 2}, "models": [],
                      "users": [], "trainers": [["t", pc.ext_of_float(123456.789), None]]}
@@ -526,8 +538,8 @@ def suite_fork(ctx: Ctx) -> SuiteResult:
     order = registration_from_source()
     res.extra["registration_order_used"] = order or pc.REGISTRATION
     cases = [c["case"] for c in corpus_cases("C10") if "spec" in c["case"]]
-    cases += [{"spec": s, "order": order} for s in fixed_specs()]
-    cases += [{"spec": gen_spec(ctx.rng, big=(i % 2 == 0)), "order": order} for i in range(ctx.n(10, 150))]
+    cases += [{"spec": s} for s in fixed_specs()]
+    cases += [{"spec": gen_spec(ctx.rng, big=(i % 2 == 0))} for i in range(ctx.n(10, 150))]
     for case in cases:
         vs, d, info = fork_case(case, ctx.driver, ctx.rng, res)
         res.evaluations += info.get("loads", 0)
@@ -607,7 +619,7 @@ def launch_crash_case(case: dict, rng, res: SuiteResult | None = None):
                 for n in dirs:
                     got = loader.load(Path(sd) / n)
                     if n == newest:
-                        hit("torn:" + got)
+                        hit("torn:" + short(got))
                         info["loads"] = info.get("loads", 0) + 1
                         if got == "ok":
                             violations.append(Violation(
@@ -616,7 +628,7 @@ def launch_crash_case(case: dict, rng, res: SuiteResult | None = None):
                         else:
                             torn_dirs.append((k, os.path.join(sd, n)))
                     else:
-                        hit("older-complete:" + got)
+                        hit("older-complete:" + short(got))
                         if got != "ok":
                             violations.append(Violation(
                                 "crash:old-state-damaged", f"launch() killed before operation {k}: the "
@@ -897,13 +909,13 @@ def suite_sigkill(ctx: Ctx) -> SuiteResult:
                     got = loader.load(Path(states) / n)
                     res.evaluations += 1
                     if n in done:
-                        res.hit("complete:" + got)
+                        res.hit("complete:" + short(got))
                         if got != "ok":
                             res.violations.append(Violation("crash:old-state-damaged", f"state {n} was reported "
                                                             f"complete before the kill and now gives {got}",
                                                             {"spec": "sigkill", "delay": delay}))
                     else:
-                        res.hit("torn:" + got)
+                        res.hit("torn:" + short(got))
                         if got == "ok":
                             # the kill may have landed between the last write and the report
                             res.hit("unreported-but-loadable")
@@ -926,14 +938,13 @@ def search(ctx: Ctx, disagreements, broken):
     for dis in disagreements:
         c = dis.case
         if isinstance(c, dict) and "spec" in c:
-            vs, _, _ = fork_case({"spec": c["spec"], "order": c.get("order")}, None, rng)
+            vs, _, _ = fork_case({"spec": c["spec"]}, None, rng)
             out += vs
     if out:
         return out
     specs = fixed_specs() + [gen_spec(rng, big=(i % 2 == 0)) for i in range(ctx.n(25, 200))]
-    order = registration_from_source()
     for spec in specs:
-        vs, _, _ = fork_case({"spec": spec, "order": order}, None, rng)
+        vs, _, _ = fork_case({"spec": spec}, None, rng)
         if vs:
             return vs
     for spec, runtime in ((fixed_specs()[0], False), (fixed_specs()[1], True), (fixed_specs()[2], False)):
@@ -955,7 +966,7 @@ def replay(ctx: Ctx, payload: dict) -> SuiteResult:
                                           "ks": [case["k"]] if "k" in case else None}, rng)
             res.violations = vs
         else:
-            vs, d, info = fork_case({"spec": case["spec"], "order": case.get("order")}, ctx.driver, rng)
+            vs, d, info = fork_case({"spec": case["spec"]}, ctx.driver, rng)
             want = (case.get("k"), case.get("trunc"))
             res.violations = [v for v in vs if "k" not in case or
                               (v.case.get("k"), v.case.get("trunc")) == want] or vs
